@@ -133,6 +133,26 @@ theorem blockRe_eq_firstEnd_aaa : ∀ c ∈ blockCases_aaa, BlockOk c := fun c h
 theorem blockRe_ne_firstEnd_cstyle : ∀ c ∈ blockCases_cstyle, ¬ BlockOk c := fun c hc =>
   refuteCase_sound c (List.all_eq_true.mp (by decide +kernel : blockCases_cstyle.all refuteCase = true) c hc)
 
+/-- What does hold for the C-style expression (F3a is over-consumption only): every block comment of
+    the specification is matched, so a comment is never missed — but the longest match may run on. -/
+def checkSpecSubRe (c : BlockCase) : Bool :=
+  autIncl (firstEndDfa c.s c.e).aut reAut (firstEndDfa c.s c.e).start c.re
+
+theorem specSubRe_sound (c : BlockCase) (h : checkSpecSubRe c = true) :
+    ∀ w, (firstEndDfa c.s c.e).accepts w = true → matchesRe c.re w = true := fun w hw => by
+  have := autIncl_sound _ _ (firstEndDfa_respects c.s c.e) reAut_respects _ _ _ h w hw
+  simpa [reAut_accepts] using this
+
+theorem blockRe_cstyle_partial : ∀ c ∈ blockCases_cstyle,
+    ∀ w, (firstEndDfa c.s c.e).accepts w = true → matchesRe c.re w = true := fun c hc =>
+  specSubRe_sound c (List.all_eq_true.mp (by decide +kernel : blockCases_cstyle.all checkSpecSubRe = true) c hc)
+
+/-- The same for F3f (`\--`). For the three-character ends (F3b–F3e) and for escape sequences (F3g)
+    neither inclusion holds: those regexes both miss comments and over-consume (`s a abc abc`). -/
+theorem blockRe_aa_mixedesc_partial : ∀ c ∈ blockCases_aa_mixedesc,
+    ∀ w, (firstEndDfa c.s c.e).accepts w = true → matchesRe c.re w = true := fun c hc =>
+  specSubRe_sound c (List.all_eq_true.mp (by decide +kernel : blockCases_aa_mixedesc.all checkSpecSubRe = true) c hc)
+
 /-- F3b: end `aab` (`-->`, `**)`): `s([^a]|a[^a]|aa[^b])*aab` rejects `s a aab` (`<!----->`). -/
 theorem blockRe_ne_firstEnd_aab : ∀ c ∈ blockCases_aab, ¬ BlockOk c := fun c hc =>
   refuteCase_sound c (List.all_eq_true.mp (by decide +kernel : blockCases_aab.all refuteCase = true) c hc)
@@ -165,6 +185,23 @@ theorem blockRe_ne_firstEnd_ab_escclass : ∀ c ∈ blockCases_ab_escclass, ¬ B
 /-- F15: `{s}.*(\r\n|\r|\n)?` — `.` matches `\r`, so `s \r s` is one token although the line ended at `\r`. -/
 theorem lineRe_ne_spec : ∀ c ∈ lineCases, ¬ LineOk c := fun c hc =>
   refuteLine_sound c (List.all_eq_true.mp (by decide +kernel : lineCases.all refuteLine = true) c hc)
+
+/-- What does hold for line comments: on every text without a CR-only line end (each carriage
+    return is immediately followed by a line feed) the real regex and the specification agree — the
+    token then runs to the end of its line, including the line break (`\n` or `\r\n`). -/
+def checkLineCrlf (c : LineCase) : Bool :=
+  autEquiv (crlfGuard reAut) (crlfGuard reAut) (some (c.re, false)) (some (lineSpecRe c.s, false))
+
+theorem lineRe_eq_spec_partial : ∀ c ∈ lineCases, ∀ w, crOk w = true →
+    matchesRe c.re w = matchesRe (lineSpecRe c.s) w := by
+  intro c hc w hw
+  have hall : lineCases.all checkLineCrlf = true := by decide +kernel
+  have h := List.all_eq_true.mp hall c hc
+  have := autEquiv_sound (crlfGuard reAut) (crlfGuard reAut) (crlfGuard_respects _ reAut_respects)
+    (crlfGuard_respects _ reAut_respects) _ _ _ h w
+  rw [crlfGuard_accepts, crlfGuard_accepts] at this
+  simp only [crOk] at hw
+  simpa [hw, reAut_accepts] using this
 
 /-! ## Non-vacuity and the concrete witnesses of DESIGN.md §8 -/
 
